@@ -42,6 +42,10 @@ BASE = {
                               "res /t on get -> <tree> :: <status=404, @named>;\n"},
         "inline": ["leaf", "chain"], "identity": ["leaf"], "module": ["leaf", "tree"],
     },
+    "two-recursive-schemas": {
+        "files": {"main.oal": "let tree = { 'id int, 'kids [tree] };\nlet chain = { 'id str, 'rest [chain] };\nres /t on get -> <tree>;\nres /c on get -> <chain>;\n"},
+        "inline": [], "identity": [], "module": ["tree"], "split": [["tree"], ["chain"]],
+    },
     "contents-and-transfers": {
         "files": {"main.oal": "let body = { 'a str };\nlet ok = <status=200, media=\"application/json\", headers={ 'etag str }, body>;\nlet bad = <status=4XX, { 'msg str }>;\n"
                               "let read = get -> ok :: bad;\nlet write = put, patch : <body> -> ok :: bad;\nres /doc on read, write;\n"},
@@ -81,6 +85,16 @@ def variants(name, spec):
     if spec.get("module"):
         v["moved-to-module"] = rw.to_module(files, spec["module"])
         v["moved-to-qualified-module"] = rw.to_module(files, spec["module"], qualifier="zq")
+    if spec.get("split"):
+        # each group into a module of its own (the declarations then sit at the same position of their modules' trees)
+        cur = dict(files)
+        for i, group in enumerate(spec["split"]):
+            cur = rw.to_module(cur, group, module="zzsplit%d.oal" % i)
+        v["split-into-modules"] = cur
+        cur = dict(files)
+        for i, group in enumerate(spec["split"]):
+            cur = rw.to_module(cur, group, module="dir%d/model.oal" % i)
+        v["split-into-same-named-modules"] = cur
     v["renamed+reversed+trivia"] = {**files, "main.oal": rw.trivia(rw.permute(rw.rename(src), "reversed"), "block")}
     return v
 
